@@ -256,6 +256,13 @@ def streams(ctx) -> List[Stream]:
                 s.add(f'uf.class {stack(H.tolist())}', cls,
                       {'code': cname, 'size': list(size), 'sector': sec}, nontrivial=True,
                       tag=f'{cname}:{cls}')
+                if cname == 'Toric2DCode':
+                    # the subject of Properties/C05UnionFindToric.lean: the sector matrix of the matrix
+                    # assembled from the all-sizes lattice MODEL is the matrix the implementation hands to
+                    # Support, and it is in the class the theorems state for this size
+                    s.add(f'uf.toric {size[0]} {size[1]} {sec[1].lower()}', f'{cls} {stack(H.tolist())}',
+                          {'code': cname, 'size': list(size), 'sector': sec, 'via': 'lattice model'},
+                          nontrivial=True, tag=f'{cname}:model-sector:{cls}')
     out.append(s.run())
 
     # --- arbitrary small matrices: simple graphs, parallel edges, dangling edges (weight-1 columns),
